@@ -165,6 +165,7 @@ class Explorer:
         {"return", "diverge", "stop", "unreachable"}."""
         b = self.b
         paths = []
+        self.states = []  # (decisions, env) aligned with the returned paths
         # iterative DFS: stack of (block, env, decisions, path, visits)
         init_env = dict(env or {})
         stack = [(start, init_env, {}, [], {})]
@@ -188,13 +189,13 @@ class Explorer:
                 t = bl["term"]
                 k = t["k"]
                 if bi in self.stop_at and len(path) > 1:
-                    paths.append((path, "stop"))
+                    paths.append((path, "stop")); self.states.append((dict(dec), dict(env)))
                     break
                 if k == "return":
-                    paths.append((path, "return"))
+                    paths.append((path, "return")); self.states.append((dict(dec), dict(env)))
                     break
                 if k in ("unreachable", "resume", "terminate"):
-                    paths.append((path, "unreachable"))
+                    paths.append((path, "unreachable")); self.states.append((dict(dec), dict(env)))
                     break
                 if k == "goto":
                     bi = t["t"]
@@ -208,13 +209,13 @@ class Explorer:
                         a = self.assume.get(bi)
                         env[t["dest"]["l"]] = a if a is not None else ("s", key)
                     if t["t"] is None:
-                        paths.append((path, "diverge"))
+                        paths.append((path, "diverge")); self.states.append((dict(dec), dict(env)))
                         break
                     bi = t["t"]
                     continue
                 if k == "asm":
                     if not t["ts"]:
-                        paths.append((path, "diverge"))
+                        paths.append((path, "diverge")); self.states.append((dict(dec), dict(env)))
                         break
                     bi = t["ts"][0]
                     continue
@@ -265,14 +266,14 @@ class Explorer:
                         else:
                             stack.append((tgt, env, d2, path, visits))
                     if nxt is None:
-                        paths.append((path, "unreachable"))
+                        paths.append((path, "unreachable")); self.states.append((dict(dec), dict(env)))
                         break
                     bi, dec = nxt
                     self.n += 1
                     if len(paths) + len(stack) > self.max_paths:
                         raise PathLimit("path limit exceeded in %s" % b.path)
                     continue
-                paths.append((path, "unreachable"))
+                paths.append((path, "unreachable")); self.states.append((dict(dec), dict(env)))
                 break
         return paths
 
